@@ -5,3 +5,5 @@ go 1.22
 require github.com/vektah/gqlparser/v2 v2.0.0
 
 replace github.com/vektah/gqlparser/v2 => /repo
+
+require gopkg.in/yaml.v3 v3.0.1
